@@ -140,12 +140,12 @@ def oracle_sim(case, impl):
         if not (i < e < n):
             return _v("start-bad-index", f"start at {i} names end index {e} of {n}")
         te = ixs[e].split()
-        if te[0] not in ("EF", "EFX") or int(te[1]) != a:
+        if te[0] not in ("EF", "EFX", "EFN") or int(te[1]) != a:
             return _v("start-wrong-end", f"start for account {a} names instruction {e} = {ixs[e]}")
         if p["flags0"][a - 1] & (G.MASK_DISABLED | G.MASK_FROZEN):
             return _v("start-on-disabled-or-frozen", f"flash loan committed on account {a} with flags {p['flags0'][a - 1]}")
         # the flag is cleared by the first end for a after i
-        close = next(j for j in range(i + 1, n) if ixs[j].split()[0] in ("EF", "EFX") and int(ixs[j].split()[1]) == a)
+        close = next(j for j in range(i + 1, n) if ixs[j].split()[0] in ("EF", "EFX", "EFN") and int(ixs[j].split()[1]) == a)
         brackets.append((a, i, close))
     for a, i, close in brackets:
         for j in range(i + 1, close):
